@@ -34,6 +34,41 @@ Proof.
            end; cbn [app_opt]; discriminate.
 Qed.
 
+Require Import FL.Flw.Run FL.Flw.NumInv FL.Flw.NumRun FL.Flw.NumDInv FL.Flw.NumDRun FL.Flw.TsTime FL.Flw.TsNames FL.Flw.TsInv FL.Flw.TsRun FL.Flw.TsTheorems FL.Flw.NumKillRestart FL.Flw.NumCleanupNames FL.Flw.NumCleanupStep FL.Flw.NumCleanupRun FL.Flw.NumCleanup FL.Flw.NoPanic.
+(* no operation of any history panics or fails (model, Numbers naming; the same for the other proved namings below) *)
+Theorem C10_numbers_no_panic c crit t0 off ops :
+  numcfg c crit -> Forall basic_op ops ->
+  Forall obs_ok (snd (run (sys0 t0 off) (OStart c :: ops ++ [OStop]))).
+Proof. exact (numbers_no_panic c crit t0 off ops). Qed.
+
+(* NumbersDirect naming *)
+Theorem C10_numbersdirect_no_panic c crit t0 off ops :
+  numdcfg c crit -> Forall basic_op ops ->
+  Forall obs_ok (snd (run (sys0 t0 off) (OStart c :: ops ++ [OStop]))).
+Proof. exact (numbersdirect_no_panic c crit t0 off ops). Qed.
+
+(* Timestamps naming *)
+Theorem C10_timestamps_no_panic c crit t0 off ops :
+  tscfg c crit -> tag_ok c -> Forall basic_op ops -> Forall tick_ok ops ->
+  (0 <= t0 + ts_e c off)%Z -> (t0 + elapsed ops + ts_e c off < sec_max)%Z -> (N.of_nat (length ops) <= usize_max)%N ->
+  Forall obs_ok (snd (run (sys0 t0 off) (OStart c :: ops ++ [OStop]))).
+Proof. exact (timestamps_no_panic c crit t0 off ops). Qed.
+
+(* Numbers naming with a cleanup strategy *)
+Theorem C10_numbers_cleanup_no_panic c crit k t0 off ops :
+  numkcfg c crit k -> Forall basic_op ops ->
+  kside c k (nclosed (a_run None ops (snd (run (fst (step (sys0 t0 off) (OStart c))) ops)))) ->
+  Forall obs_ok (snd (run (sys0 t0 off) (OStart c :: ops ++ [OStop]))).
+Proof. exact (numbers_cleanup_no_panic c crit k t0 off ops). Qed.
+
 Check C10_dispatch_total. Check C10_listing_total.
 Print Assumptions C10_dispatch_total.
 Print Assumptions C10_listing_total.
+Check C10_numbers_no_panic.
+Print Assumptions C10_numbers_no_panic.
+Check C10_numbersdirect_no_panic.
+Print Assumptions C10_numbersdirect_no_panic.
+Check C10_timestamps_no_panic.
+Print Assumptions C10_timestamps_no_panic.
+Check C10_numbers_cleanup_no_panic.
+Print Assumptions C10_numbers_cleanup_no_panic.
